@@ -38,7 +38,8 @@ KINDS = ["forcing_starts_late", "forcing_ends_early", "frames_out_of_order", "fr
          "release_file_missing", "config_file_missing", "section_missing", "subgrid_illegal", "bad_period",
          "frames_unsorted_in_file", "frame_time_repeated_in_file"]
 REQUIRED_PROBES = ["applied:" + k for k in KINDS] + ["control_started", "combination", "ends_inside_fraction",
-                                                   "short_by_less_than_a_step_start_side", "short_by_less_than_a_step_stop_side"]
+                                                   "short_by_less_than_a_step_start_side", "short_by_less_than_a_step_stop_side",
+                                                   "release_a_fraction_of_a_step_before_start"]
 
 PROFILE = gen.profile(
     nsteps=(2, 24), p_reversed=0.35, p_land=0.3, p_subgrid=0.3, rows=(1, 6), p_late_rows=0.6, p_rows_outside=0.3,
@@ -234,8 +235,18 @@ def apply_faults(sc):
             ap.kinds.append(k)
         elif k == "release_all_before":
             if not s2["release"].get("continuous"):
-                for r in s2["release"]["rows"]:
-                    r["step"] = -1 - abs(int(r["step"])) % 3
+                dt0 = int(sc["time"]["dt"])
+                if f["r"] > 0.6 and dt0 > 1:
+                    # the release clock is out of step with the model clock: everything is released less than one
+                    # time step before the start
+                    delta = 1 + int(f["r"] * 997) % (dt0 - 1)
+                    for r in s2["release"]["rows"]:
+                        r["step"] = 0
+                        r["off_s"] = -delta
+                    ap.notes.append("release_a_fraction_of_a_step_before_start")
+                else:
+                    for r in s2["release"]["rows"]:
+                        r["step"] = -1 - abs(int(r["step"])) % 3
                 s2["release"]["rows"].sort(key=lambda r: r["step"])
                 ap.kinds.append(k)
         elif k == "release_all_at_or_after_stop":
